@@ -438,7 +438,7 @@ theorem writeRound_hs (C : Cfg) (P : HsP) (r : Bool) (data : Bytes) (hd : data â
       s0.e.stage < 3) := by
   have hp0 : s1.g.pendingSend = [] âˆ¨ s1.g.pendingSend = data := by rw [p1]; exact hi.2.2.2.2.2.2.2
   unfold writeRound
-  rw [if_neg (by intro h; exact h.2 hp0)]
+  rw [if_neg (by intro h; exact h.2 (hp0.imp id (congrArg List.length)))]
   obtain âŸ¨ans, out, s2, e2, c2, l2, p2, t2, a2, g2âŸ© :=
     sslWrite_spec P r s1 data hd c1 (by rw [ee1]; exact hi.2.2.2.2.1) (by rw [ee1]; exact hi.2.2.2.1)
   rw [e2]
